@@ -375,7 +375,7 @@ Section Case.
                                 (* static_dynamic_agree, on the reference side: after validation a
                                    coercion can only be missing for one of the run-time reasons *)
                                 match ref_vv with
-                                | Some v => if null_variable v args || absent_item_variable v args || refusing_hook E then None
+                                | Some v => if null_variable v args || absent_item_variable v args || hook_reached_args E argdefs args then None
                                             else Some (v_oracle_fail "runtime-error-without-runtime-reason" [])
                                 | None => None
                                 end
@@ -451,11 +451,12 @@ Section Case.
                           | Err => ["argument-error"] ++
                                    (if null_variable v args then ["reason-null-variable"] else []) ++
                                    (if absent_item_variable v args then ["reason-absent-item-variable"] else []) ++
-                                   (if refusing_hook E then ["reason-hook-in-schema"] else [])
+                                   (if hook_reached_args E argdefs args then ["reason-hook-reached"] else [])
                           | Panic => ["panic"]
                           end
                 | Err => ["variable-error"] ++
-                         (if bad_variable_value all_fixed E dt defs raw then ["reason-bad-variable-value"] else ["reason-hook-on-default"])
+                         (if bad_variable_value all_fixed E dt defs raw then ["reason-bad-variable-value"] else []) ++
+                         (if hook_reached_defaults E defs raw then ["reason-hook-reached-by-default"] else [])
                 | Panic => ["panic"]
                 end else []) ++
     (if top_var then ["variable"] else []) ++ (if nested then ["variable-nested"] else []) ++
